@@ -73,6 +73,8 @@ class Impl:
                                       r_line('named', bytes([2] * 20)), 's Fast', r_line('relay3', bytes([3] * 20)), 's Exit']
         self.st.info['circuit-status'] = list(case.get('snap_c') or [])
         self.st.info['stream-status'] = list(case.get('snap_s') or [])
+        # the address mappings Tor already has (read after the streams: a stream of the snapshot keeps the target Tor reported)
+        self.st.info['address-mappings/all'] = ['%s %s NEVER' % (n, a) for n, a in case.get('snap_a') or []]
         self.st.hold_prefixes.update(HELD)
         self.state = TorState(self.st.proto)
         import txtorcon.circuit as _circuit_mod
@@ -285,6 +287,8 @@ class Impl:
                 # endpoint alone; it is numbered like any other
                 self.log.append(['d', self.next_did])
                 self.next_did += 1
+            elif k == 'amap':
+                self.st.event('ADDRMAP %s %s NEVER' % (op[1], op[2]))
             elif k == 'vialost':
                 # Tor answers the SOCKS request of that connection with a failure (before any stream of it was reported)
                 fake = self.pending_socks.pop((op[1], op[2]))
@@ -498,6 +502,8 @@ def op_line(op):
         return 'via %d %s %d' % (op[1], hexs(op[2]), op[3])
     if k == 'vialost':
         return 'vialost %s %d' % (hexs(op[1]), op[2])
+    if k == 'amap':
+        return 'amap %s %s' % (hexs(op[1]), hexs(op[2]))
     raise ValueError(op)
 
 
@@ -509,6 +515,8 @@ def driver_lines(case):
         lines.append(op_line(['circ', l, []]))
     for l in case.get('snap_s') or []:
         lines.append(op_line(['strm', l, [], None]))
+    for n, a in case.get('snap_a') or []:
+        lines.append(op_line(['amap', n, a]))
     marks = [len(lines)]
     lines.append('dump')
     for op in case['ops']:
